@@ -4,7 +4,7 @@ import contracts.lineage as LN
 import contracts.context as CX
 import contracts.standins_lineage as B
 
-PROVED = [LN.add_lineage, LN.matches, LN.plugins_are_cached, LN.register, CX.find_options, CX.check_cache]
+PROVED = [LN.add_lineage, LN.add_lineage_child, LN.folder_matches, LN.matches, LN.plugins_are_cached, LN.register, CX.find_options, CX.check_cache]
 
 PROPERTY = Property(
     "C02", "proof",
@@ -20,7 +20,7 @@ PROPERTY = Property(
     trusted=["pyvc VC generator and value model", "z3 5.1.0 / cvc5 1.4.0",
              "library model of a filtering dict comprehension over X.items()"],
     assumptions=["plugins, option objects, registries and lineages are opaque values with uninterpreted contains / getitem / attributes",
-                 "child plugins (lineage with parent options removed) are outside the proved variant of __add_lineage_to_plugin",
+                 "child plugins: only the 'tracked options only' clause of their lineage entry is proved (which parent options are dropped is not)",
                  "deterministic_hash / hashablize (recursive, isinstance- and try/except-driven), _filter_lineage (nested comprehensions), "
                  "key_for / get_data_key, the directory lookup of DataDirectory and the end-to-end 'equals a brand-new context' clause "
                  "are NOT proved: bounded stand-ins on the real code",
@@ -31,5 +31,6 @@ PROPERTY = Property(
                 "untracked option never does; StorageFrontend._matches is exact without fuzzy settings and compares the lineages with the "
                 "fuzzy parts removed otherwise; _plugins_are_cached allows reuse only under the current context hash; Context.register "
                 "drops the plugin cache whenever it changes the class registry (this obligation failed on the pinned tree: F5, fixed); "
-                "nothing is saved while fuzzy matching is on (check_cache dominance obligation, _find_options contract).",
+                "DataDirectory._folder_matches accepts a folder only for its own data type and run, and without fuzzy settings only "
+                "under the identical lineage hash; nothing is saved while fuzzy matching is on (check_cache dominance obligation, _find_options contract).",
 )
